@@ -60,7 +60,7 @@ func endsInDescent(rf []vref.PFrag) bool {
 // FirstNode against Get, same data x path space as C05 (paths not ending
 // in a bare descent).
 func VerifC11_Agree() {
-	shape := vx.Choose("data", numShapes)
+	shape := chooseShape()
 	data := mkData(shape)
 	x, rf, desc := buildPath()
 	if endsInDescent(rf) {
